@@ -253,3 +253,8 @@ func FindIn(list []map[string]any, like map[string]any) map[string]any {
 	}
 	return nil
 }
+
+// syncOf runs one sync of an arbitrary parent of the controller's parent resource.
+func (e *Env) syncOf(parent map[string]any) *SyncTrace {
+	return e.run(func() error { return e.Ctl.Sync(e.Ctl.KeyFor(parent)) })
+}
